@@ -766,6 +766,61 @@ Definition launch_names_gen : list string :=
     return "gen/LaunchNames_gen.v"
 
 
+# ---- round_down_time_stamps (hta/common/trace_parser.py) -> coq/gen/Rounding_gen.v ----
+def gen_rounding() -> str:
+    """Reads round_down_time_stamps statement by statement.  Supported shape only (docstrings and logger calls aside):
+         if df["ts"].dtype != np.dtype("float64"): return
+         if hta_options.disable_ns_rounding(): <logger call>; return
+         df["end"] = df["ts"] + df["dur"]
+         df["ts"]  = df[~df["ts"].isnull()]["ts"].apply(lambda x: math.ceil(x))
+         df["end"] = df[~df["end"].isnull()]["end"].apply(lambda x: math.floor(x))
+         df["dur"] = df["end"] - df["ts"]
+       Anything else -- another early return, another order, another rounding function -- stops the translator."""
+    path = "hta/common/trace_parser.py"
+    tree = ast.parse(open(os.path.join(fw.REPO, path)).read())
+    fn = next((n for n in tree.body if isinstance(n, ast.FunctionDef) and n.name == "round_down_time_stamps"), None)
+    if fn is None:
+        raise Stop("round_down_time_stamps not found")
+
+    def is_log(st):
+        return isinstance(st, ast.Expr) and (isinstance(st.value, ast.Constant) or
+                                             (isinstance(st.value, ast.Call) and ast.unparse(st.value.func).startswith("logger.")))
+    body = [st for st in fn.body if not is_log(st)]
+    if len(body) != 6:
+        raise Stop(f"round_down_time_stamps: {len(body)} statements besides logging, expected 6 (two guards, four assignments)")
+    g1, g2, a1, a2, a3, a4 = body
+
+    def guard(st, test_text, what):
+        if not (isinstance(st, ast.If) and not st.orelse and ast.unparse(st.test) == test_text):
+            raise Stop(f"round_down_time_stamps: {what} guard is `{ast.unparse(st)[:70]}`")
+        inner = [x for x in st.body if not is_log(x)]
+        if not (len(inner) == 1 and isinstance(inner[0], ast.Return) and inner[0].value is None):
+            raise Stop(f"round_down_time_stamps: the {what} guard does more than return")
+    guard(g1, "df['ts'].dtype != np.dtype('float64')", "dtype")
+    guard(g2, "hta_options.disable_ns_rounding()", "option")
+    want = ["df['end'] = df['ts'] + df['dur']",
+            "df['ts'] = df[~df['ts'].isnull()]['ts'].apply(lambda x: math.ceil(x))",
+            "df['end'] = df[~df['end'].isnull()]['end'].apply(lambda x: math.floor(x))",
+            "df['dur'] = df['end'] - df['ts']"]
+    for st, w in zip((a1, a2, a3, a4), want):
+        if ast.unparse(st) != w:
+            raise Stop(f"round_down_time_stamps: statement `{ast.unparse(st)[:90]}` is not `{w}`")
+    fun = {"ceil": "Qceiling", "floor": "Qfloor"}
+    out = f'''(* GENERATED by harness/translate.py from hta/common/trace_parser.py (round_down_time_stamps) -- do not edit.
+   For a frame whose ts column is float64, unless ns rounding is disabled:  end := ts + dur (a double addition, supplied as e);
+   ts := ceil(ts); end := floor(end); dur := end - ts.  No other early return exists. *)
+From Coq Require Import QArith Qround.
+From HTA.lib Require Import Base.
+
+Definition round_ts_gen (t : Q) : Z := {fun["ceil"]} t.
+Definition round_end_gen (e : Q) : Z := {fun["floor"]} e.
+Definition round_event_gen (t e : Q) : Z * Z := (round_ts_gen t, (round_end_gen e - round_ts_gen t)%Z).
+Definition rounding_guards_gen : list string := ["ts column is not float64"; "ns rounding disabled by option"].
+'''
+    write_if_changed(os.path.join(GEN, "Rounding_gen.v"), out)
+    return "gen/Rounding_gen.v"
+
+
 # ---- the change classes of hta/trace_diff.py -> coq/gen/DiffRules_gen.v ----
 def gen_diff_rules() -> str:
     """Reads TraceDiff.compare_traces (diff_counts / diff_duration = test minus control; the sign lambda of counts_change_categories) and the
